@@ -36,6 +36,17 @@ REQUIRED_COUNTERS = (
     + [f"site.{s}" for s in SITES]
 )
 
+ANCHORS = [
+    "statham.schema.validation.base:Validator.__call__",
+    "statham.schema.validation.numeric:MultipleOf._validate",
+    "statham.schema.validation.array:UniqueItems._validate",
+    "statham.schema.elements.composition:_attempt_schema",
+    "statham.schema.elements.composition:Not.construct",
+    "statham.schema.parser:parse_element",
+    "statham.schema.elements.numeric:Number.construct",
+    "statham.schema.validation.format:_FormatString.__call__",
+]
+
 
 def plan(tier):
     if tier == "quick":
